@@ -31,6 +31,7 @@ import (
 	"net/http/httptest"
 	"os"
 	"strconv"
+	"strings"
 	"sync"
 	"sync/atomic"
 	"time"
@@ -51,6 +52,7 @@ type Step struct {
 	Ctx  string `json:"ctx,omitempty"`  // never | open
 	Kind string `json:"kind,omitempty"` // hello | read | closeall | shutdown
 	Good bool   `json:"good"`
+	N    int    `json:"n,omitempty"` // burst: number of concurrent callers K..K+N-1
 }
 
 type CallerObs struct {
@@ -71,17 +73,19 @@ type Case struct {
 	ReaderAlive bool        `json:"reader_alive"`
 	ServeDone   bool        `json:"serve_done"`
 	// e2e
-	Fault       string   `json:"fault,omitempty"`
-	Conns       int      `json:"conns"`
-	Hold        bool     `json:"hold"`
-	FrontClosed []bool   `json:"front_closed,omitempty"`
-	Unregistered bool    `json:"unregistered"`
-	FrontReturned bool   `json:"servefront_returned"`
-	BackReturned bool    `json:"serveback_returned"`
-	Queued      int      `json:"queued_at_release,omitempty"`
-	Leak        []string `json:"leak,omitempty"`
-	Hang        string   `json:"hang,omitempty"`
-	Crash       string   `json:"crash,omitempty"`
+	Fault          string   `json:"fault,omitempty"`
+	Conns          int      `json:"conns"`
+	Hold           bool     `json:"hold"`
+	FrontClosed    []bool   `json:"front_closed,omitempty"`
+	Unregistered   bool     `json:"unregistered"`
+	FrontReturned  bool     `json:"servefront_returned"`
+	BackReturned   bool     `json:"serveback_returned"`
+	AcceptReturned bool     `json:"accept_returned"`   // the lost endpoint's Accept returned (endpoint side)
+	Skipped        bool     `json:"skipped,omitempty"` // not run: the stream was stopped after repeated stranding
+	Queued         int      `json:"queued_at_release,omitempty"`
+	Leak           []string `json:"leak,omitempty"`
+	Hang           string   `json:"hang,omitempty"`
+	Crash          string   `json:"crash,omitempty"`
 }
 
 // ---- generation -------------------------------------------------------------
@@ -108,6 +112,24 @@ func genTL(seed uint64, i int) Case {
 		return c
 	case 3: // mistyped reply drops the call; it returns when serve ends
 		c.Steps = []Step{newc("read", "never"), {Op: "reply", K: 1, Good: false}}
+		return c
+	case 4: // more calls after the loss than the call queue holds
+		c.Steps = []Step{newc("read", "never"), {Op: "sever"}, {Op: "burst", K: 10, N: 160, Kind: "closeall"}}
+		return c
+	case 5: // a peer that stops reading: the queue fills, callers wait to enqueue; then the loss
+		c.Steps = []Step{newc("hello", "never"), {Op: "reply", K: 1, Good: true}, {Op: "stall"},
+			{Op: "burst", K: 10, N: 200, Kind: "write"}, {Op: "sever"}}
+		return c
+	}
+	if i%97 == 50 { // a few more of both, with varying sizes
+		n := 130 + r.Intn(60)
+		if r.Bool() {
+			c.Steps = []Step{{Op: "sever"}, {Op: "burst", K: 10, N: n, Kind: []string{"closeall", "hello", "read"}[r.Intn(3)]},
+				newc("closeall", "never")}
+		} else {
+			c.Steps = []Step{{Op: "stall"}, {Op: "burst", K: 10, N: n + 40, Kind: "write"}, {Op: "sever"},
+				newc("closeall", "never")}
+		}
 		return c
 	}
 	kinds := []string{"hello", "hello", "read", "closeall"}
@@ -172,22 +194,31 @@ func genTL(seed uint64, i int) Case {
 	return c
 }
 
-var e2eFaults = []string{"sever-endpoint", "sever-server", "close-endpoint", "kick"}
+var e2eFaults = []string{"sever-endpoint", "sever-server", "close-endpoint", "kick", "proto-error"}
+
+var e2eFirst = []string{"sever-endpoint", "sever-server", "close-endpoint", "kick", "kick-blackholed",
+	"proto-error", "sever-endpoint", "proto-error"}
 
 func genE2E(seed uint64, i, j int) Case {
 	r := hx.NewRng(seed*7919 + uint64(j)*104723 + 11)
 	c := Case{I: i, Stream: "e2e", Hold: true}
-	c.Fault = e2eFaults[j%len(e2eFaults)]
-	c.Conns = []int{1, 2, 0, 3, 1, 8, 2, 4}[j%8]
+	c.Fault = e2eFirst[j%8]
+	c.Conns = []int{1, 2, 0, 3, 2, 1, 2, 4}[j%8]
 	if j >= 8 {
 		c.Conns = r.Intn(9)
 		c.Fault = e2eFaults[r.Intn(len(e2eFaults))]
 		c.Hold = r.Intn(4) > 0
+		if j%37 == 20 { // (costs the 3 s shutdown time-out of the kick even on a sound tree)
+			c.Fault = "kick-blackholed"
+			c.Conns = 1 + r.Intn(3)
+		}
 	}
 	return c
 }
 
 // ---- transport-level scenarios --------------------------------------------------
+
+var bigPayload = make([]byte, 256*1024)
 
 type tcaller struct {
 	step     Step
@@ -227,9 +258,13 @@ func runTL(c *Case, tap *rpcx.LogTap) {
 	defer pair.Close()
 	cl := sniproxy.VerifNewClient(pair.A, nil)
 	reqs := make(chan []byte, 256)
+	var stalled atomic.Bool
 	go func() {
 		defer close(reqs)
 		for {
+			for stalled.Load() { // a peer that has stopped reading
+				time.Sleep(time.Millisecond)
+			}
 			mt, data, err := pair.B.ReadMessage()
 			if err != nil {
 				return
@@ -279,6 +314,40 @@ func runTL(c *Case, tap *rpcx.LogTap) {
 		return id, -1
 	}
 
+	start := func(st Step) *tcaller {
+		ctx, cancel := context.Background(), context.CancelFunc(func() {})
+		if st.Ctx == "open" {
+			ctx, cancel = context.WithCancel(context.Background())
+		}
+		tc := &tcaller{step: st, cancel: cancel, done: make(chan struct{})}
+		callers[st.K] = tc
+		order = append(order, st.K)
+		go func(st Step) {
+			defer close(tc.done)
+			var err error
+			switch st.Kind {
+			case "hello":
+				_, err = cl.Call(ctx, 1, "helloRequest",
+					rpcx.ToShim([]rpcx.Field{{K: "bytes", B: rpcx.SegsOf([]byte("c" + strconv.Itoa(st.K)))}}),
+					"helloResponse", 0)
+			case "read":
+				buf := make([]byte, 16)
+				_, err = cl.Tunnel(uint64(st.K)).Read(buf)
+			case "write":
+				_, err = cl.Tunnel(uint64(st.K)).Write(bigPayload)
+			case "closeall":
+				// netutil.JoinConn's closeAll: the remote (tunnel) first,
+				// then the front connection
+				err = cl.Tunnel(uint64(st.K)).Close()
+				tc.front.Store(true)
+			case "shutdown":
+				_, err = cl.Call(ctx, 0, "", nil, "", 0)
+			}
+			tc.res = sniproxy.VerifCallErrKind(err)
+		}(st)
+		return tc
+	}
+
 	ok := true
 	var executed []Step // the steps that actually took place, in order
 	defer func() { c.Steps = executed }()
@@ -293,36 +362,35 @@ func runTL(c *Case, tap *rpcx.LogTap) {
 		}
 		executed = append(executed, st)
 		switch st.Op {
-		case "new":
-			ctx, cancel := context.Background(), context.CancelFunc(func() {})
-			if st.Ctx == "open" {
-				ctx, cancel = context.WithCancel(context.Background())
+		case "stall":
+			stalled.Store(true)
+		case "burst":
+			// many callers at once, nobody waits for them one by one
+			var started []*tcaller
+			for j := 0; j < st.N; j++ {
+				started = append(started, start(Step{Op: "new", K: st.K + j, Kind: st.Kind, Ctx: "never"}))
 			}
-			tc := &tcaller{step: st, cancel: cancel, done: make(chan struct{})}
-			callers[st.K] = tc
-			order = append(order, st.K)
-			q0 := cl.QueuedCalls()
-			go func(st Step) {
-				defer close(tc.done)
-				var err error
-				switch st.Kind {
-				case "hello":
-					_, err = cl.Call(ctx, 1, "helloRequest",
-						rpcx.ToShim([]rpcx.Field{{K: "bytes", B: rpcx.SegsOf([]byte("c" + strconv.Itoa(st.K)))}}),
-						"helloResponse", 0)
-				case "read":
-					buf := make([]byte, 16)
-					_, err = cl.Tunnel(uint64(st.K)).Read(buf)
-				case "closeall":
-					// netutil.JoinConn's closeAll: the remote (tunnel) first,
-					// then the front connection
-					err = cl.Tunnel(uint64(st.K)).Close()
-					tc.front.Store(true)
-				case "shutdown":
-					_, err = cl.Call(ctx, 0, "", nil, "", 0)
+			deadline := time.Now().Add(2 * time.Second)
+			for time.Now().Before(deadline) {
+				ndone := 0
+				for _, tc := range started {
+					select {
+					case <-tc.done:
+						ndone++
+					default:
+					}
 				}
-				tc.res = sniproxy.VerifCallErrKind(err)
-			}(st)
+				if ndone == len(started) || (stalled.Load() && cl.QueuedCalls() >= 128) {
+					break
+				}
+				time.Sleep(time.Millisecond)
+			}
+			if stalled.Load() {
+				time.Sleep(20 * time.Millisecond) // let the rest reach asyncCall
+			}
+		case "new":
+			q0 := cl.QueuedCalls()
+			tc := start(st)
 			// quiescence: the request reached the peer, or the caller
 			// returned, or its call sits in the queue with nobody to take it
 			deadline := time.Now().Add(waitBound)
@@ -454,6 +522,70 @@ func runTL(c *Case, tap *rpcx.LogTap) {
 
 var tlsCfg *httpstest.TLSConfigs
 
+// relay is a TCP relay that can be frozen: it then drops every byte in both
+// directions but keeps both sockets open (a black-holed network path: no
+// FIN, no RST, no data).
+type relay struct {
+	lis    net.Listener
+	target string
+	frozen atomic.Bool
+	mu     sync.Mutex
+	conns  []net.Conn
+}
+
+func newRelay(target string) (*relay, error) {
+	lis, err := net.Listen("tcp", "127.0.0.1:0")
+	if err != nil {
+		return nil, err
+	}
+	r := &relay{lis: lis, target: target}
+	go func() {
+		for {
+			a, err := lis.Accept()
+			if err != nil {
+				return
+			}
+			b, err := net.Dial("tcp", target)
+			if err != nil {
+				a.Close()
+				continue
+			}
+			r.mu.Lock()
+			r.conns = append(r.conns, a, b)
+			r.mu.Unlock()
+			pipe := func(dst, src net.Conn) {
+				buf := make([]byte, 32*1024)
+				for {
+					n, err := src.Read(buf)
+					if n > 0 && !r.frozen.Load() {
+						dst.Write(buf[:n])
+					}
+					if err != nil {
+						if !r.frozen.Load() {
+							dst.Close()
+						}
+						return
+					}
+				}
+			}
+			go pipe(a, b)
+			go pipe(b, a)
+		}
+	}()
+	return r, nil
+}
+
+func (r *relay) addr() string { return r.lis.Addr().String() }
+
+func (r *relay) close() {
+	r.lis.Close()
+	r.mu.Lock()
+	for _, c := range r.conns {
+		c.Close()
+	}
+	r.mu.Unlock()
+}
+
 var e2eFrames = []string{"shanhu.io/g/sniproxy", "shanhu.io/g/netutil"}
 
 func runE2E(c *Case) {
@@ -483,7 +615,8 @@ func runE2E(c *Case) {
 		mu.Lock()
 		first := len(clients) > 0 && clients[0].Same(cl)
 		mu.Unlock()
-		if first && c.Hold && held.CompareAndSwap(false, true) {
+		if first && c.Hold && c.Fault != "kick-blackholed" && c.Fault != "proto-error" &&
+			held.CompareAndSwap(false, true) {
 			atServed <- struct{}{}
 			<-release
 		}
@@ -513,10 +646,11 @@ func runE2E(c *Case) {
 		close(frontDone)
 	}()
 
-	dialEP := func() (*sniproxy.Endpoint, error) {
-		return sniproxy.Dial(context.Background(), &sniproxy.StaticRouter{Host: ts.Listener.Addr().String()},
+	dialVia := func(host string) (*sniproxy.Endpoint, error) {
+		return sniproxy.Dial(context.Background(), &sniproxy.StaticRouter{Host: host},
 			&sniproxy.DialOption{Path: "/site", WithoutTLS: true})
 	}
+	dialEP := func() (*sniproxy.Endpoint, error) { return dialVia(ts.Listener.Addr().String()) }
 	serveEcho := func(ep *sniproxy.Endpoint) {
 		for {
 			conn, err := ep.Accept()
@@ -530,13 +664,30 @@ func runE2E(c *Case) {
 			}(conn)
 		}
 	}
-	ep, err := dialEP()
+	var rl *relay
+	firstHost := ts.Listener.Addr().String()
+	if c.Fault == "kick-blackholed" {
+		// the first endpoint reaches the server through a relay
+		rl, err = newRelay(firstHost)
+		if err != nil {
+			c.Crash = "relay: " + err.Error()
+			fcancel()
+			return
+		}
+		defer rl.close()
+		firstHost = rl.addr()
+	}
+	ep, err := dialVia(firstHost)
 	if err != nil {
 		c.Crash = "dial endpoint: " + err.Error()
 		fcancel()
 		return
 	}
-	go serveEcho(ep)
+	ep1Accept := make(chan struct{})
+	go func() {
+		serveEcho(ep)
+		close(ep1Accept)
+	}()
 	// Dial returns when the websocket handshake is done; the server maps the
 	// name a moment later
 	for t0 := time.Now(); srv.VerifLookup("/site") == nil && time.Since(t0) < waitBound; {
@@ -600,7 +751,19 @@ func runE2E(c *Case) {
 			first.Sever()
 		case "close-endpoint":
 			go ep.Close()
-		case "kick":
+		case "proto-error":
+			// the server sends a message of a type the endpoint does not know;
+			// the endpoint answers with a non-zero error byte and the server's
+			// serve loop ends although the websocket is healthy
+			go func() {
+				ctx, cancel := context.WithTimeout(context.Background(), waitBound)
+				defer cancel()
+				first.Call(ctx, 0x7f, "", nil, "", 0)
+			}()
+		case "kick", "kick-blackholed":
+			if rl != nil {
+				rl.frozen.Store(true) // the old path goes dark: no data, no FIN
+			}
 			ep2, err = dialEP()
 			if err != nil {
 				c.Hang = "kick dial: " + err.Error()
@@ -608,7 +771,7 @@ func runE2E(c *Case) {
 				go serveEcho(ep2)
 			}
 		}
-		if c.Hold {
+		if c.Hold && c.Fault != "kick-blackholed" && c.Fault != "proto-error" {
 			select {
 			case <-atServed:
 				// hold the server's connection thread before its deferred
@@ -657,9 +820,23 @@ func runE2E(c *Case) {
 		}
 		time.Sleep(time.Millisecond)
 	}
+	// endpoint side: Accept returns once the tunnel is gone (a black-holed
+	// endpoint cannot know: not observed there)
+	if c.Fault != "kick-blackholed" {
+		select {
+		case <-ep1Accept:
+			c.AcceptReturned = true
+		case <-time.After(waitBound):
+		}
+	} else {
+		c.AcceptReturned = true
+	}
 	// everything is shut down; serving must be able to terminate
 	for _, fc := range fronts {
 		fc.Close()
+	}
+	if rl != nil {
+		ep.VerifSever() // (a black-holed endpoint would wait 5 s for a graceful close)
 	}
 	go ep.Close()
 	if ep2 != nil {
@@ -690,6 +867,45 @@ func runE2E(c *Case) {
 			c.Leak = append(c.Leak, g)
 		}
 	}
+}
+
+// strandKinds names what a case left waiting until an observation bound.
+func strandKinds(c *Case) string {
+	var ks []string
+	add := func(b bool, k string) {
+		if b {
+			ks = append(ks, k)
+		}
+	}
+	if c.Hang != "" {
+		ks = append(ks, "hang:"+strings.SplitN(c.Hang, ":", 2)[0])
+	}
+	if c.Stream == "tl" {
+		stranded := false
+		for _, x := range c.Callers {
+			if !x.Returned {
+				stranded = true
+			}
+		}
+		add(stranded, "caller")
+		add(c.ReaderAlive, "reader")
+		return strings.Join(ks, ",")
+	}
+	if c.Crash != "" {
+		return ""
+	}
+	for _, f := range c.FrontClosed {
+		if !f {
+			add(true, "front")
+			break
+		}
+	}
+	add(!c.Unregistered, "registered")
+	add(!c.FrontReturned, "servefront")
+	add(!c.BackReturned, "serveback")
+	add(!c.AcceptReturned, "accept")
+	add(len(c.Leak) > 0, "leak")
+	return strings.Join(ks, ",")
 }
 
 func loadScript(path string) []Case {
@@ -743,12 +959,28 @@ func main() {
 			fmt.Fprintln(os.Stderr, "tls configs:", err)
 			os.Exit(2)
 		}
+		// every stranded thread costs an observation bound: after three
+		// cases of a stream that strand the same kinds of thread, the rest of
+		// that stream is not run
+		strands := map[string]int{}
+		stopped := map[string]bool{}
 		for i := *from; i < total; i++ {
 			c := gen(i)
+			if stopped[c.Stream] {
+				c.Skipped = true
+				out.Emit(&c)
+				continue
+			}
 			if c.Stream == "tl" {
 				runTL(&c, tap)
 			} else {
 				runE2E(&c)
+			}
+			if k := strandKinds(&c); k != "" {
+				strands[c.Stream+":"+k]++
+				if strands[c.Stream+":"+k] >= 3 {
+					stopped[c.Stream] = true
+				}
 			}
 			out.Emit(&c)
 		}
